@@ -48,6 +48,7 @@ PROPS["C01"] = dict(
         "Zrnt.Proofs.C01.zigzag_eq_sorted_inter",
         "Zrnt.Proofs.C01.zigzag_marker_witness",
         "Zrnt.Proofs.C01.zigzag_result_characterised",
+        "Zrnt.Proofs.C01.sortedIntersection_is_set_intersection",
         "Zrnt.Proofs.C01.initiateExit_eq",
         "Zrnt.Proofs.C01.exitQueueScan_spec",
         "Zrnt.Proofs.C01.withdrawals_eq",
